@@ -86,13 +86,24 @@ impl AutoReloader {
     /// be possible to mutate it.
     ///
     /// If the creator function passed to the constructor fails, the error is
-    /// returned from this method.
+    /// returned from this method and the reload stays scheduled, so the next
+    /// call tries again.
     pub fn acquire_env(&self) -> Result<EnvironmentGuard<'_>, Error> {
         let mut mutex_guard = self.cached_env.lock().unwrap();
         if mutex_guard.is_none() || self.notifier.should_reload() {
             let weak_notifier = self.notifier.prepare_and_mark_reload()?;
             if mutex_guard.is_none() || !self.notifier.fast_reload() {
-                *mutex_guard = Some((self.env_creator)(weak_notifier)?);
+                let created = (self.env_creator)(weak_notifier);
+                match created {
+                    Ok(env) => *mutex_guard = Some(env),
+                    Err(err) => {
+                        // The reload did not happen.  The reload flag was already
+                        // reset, so mark the reload as pending again: otherwise the
+                        // next acquire would keep serving the stale environment.
+                        self.notifier.restore_reload();
+                        return Err(err);
+                    }
+                }
             } else {
                 mutex_guard.as_mut().unwrap().clear_templates();
             }
@@ -366,6 +377,12 @@ impl Notifier {
         };
         handle.lock().unwrap().should_reload = false;
         Ok(weak_notifier)
+    }
+
+    fn restore_reload(&self) {
+        if let Some(handle) = self.handle() {
+            handle.lock().unwrap().should_reload = true;
+        }
     }
 
     fn weak(&self) -> Notifier {
